@@ -249,6 +249,25 @@ func (w *World) argFrom(id string, opts *RunOpts, ex *Extra) {
 					}
 					found++
 					av := args[k+off]
+					// a variadic callee: its k-th element was stored into the packed slice
+					if sl, isSl := av.(*ssa.Slice); isSl && call.Call.Signature().Variadic() && k+off == len(args)-1 {
+						if al, isAl := sl.X.(*ssa.Alloc); isAl {
+							for _, r := range *al.Referrers() {
+								ia, ok := r.(*ssa.IndexAddr)
+								if !ok {
+									continue
+								}
+								if ci, ok := ia.Index.(*ssa.Const); !ok || ci.Int64() != 0 {
+									continue
+								}
+								for _, r2 := range *ia.Referrers() {
+									if st, ok := r2.(*ssa.Store); ok {
+										av = st.Val
+									}
+								}
+							}
+						}
+					}
 					okFlow := false
 					what := av.String()
 					switch {
@@ -266,6 +285,11 @@ func (w *World) argFrom(id string, opts *RunOpts, ex *Extra) {
 						if c2, isCall := av.(*ssa.Call); isCall && strings.Contains(calleeName(c2), p[1]) {
 							okFlow = true
 						}
+					case strings.HasPrefix(src, "param:"):
+						if pv, isP := av.(*ssa.Parameter); isP {
+							what = "parameter " + pv.Name()
+							okFlow = pv.Name() == strings.TrimPrefix(src, "param:")
+						}
 					case strings.HasPrefix(src, "const:"):
 						// the argument is this string constant (const:"" for the empty string)
 						want, err := strconv.Unquote(strings.TrimPrefix(src, "const:"))
@@ -275,6 +299,11 @@ func (w *World) argFrom(id string, opts *RunOpts, ex *Extra) {
 						if cv, isC := av.(*ssa.Const); isC && cv.Value != nil && cv.Value.Kind() == constant.String {
 							what = "the constant " + cv.Value.ExactString()
 							okFlow = constant.StringVal(cv.Value) == want
+						}
+						// const:nonzero — an integer constant other than 0 (an exit status)
+						if cv, isC := av.(*ssa.Const); isC && cv.Value != nil && cv.Value.Kind() == constant.Int && want == "nonzero" {
+							what = "the constant " + cv.Value.ExactString()
+							okFlow = constant.Sign(cv.Value) != 0
 						}
 					case strings.HasPrefix(src, "field:"):
 						fnm := fieldNameOf(av)
@@ -317,14 +346,18 @@ func (w *World) guarded(id string, opts *RunOpts, ex *Extra) {
 				continue
 			}
 			f := strings.Fields(cl.Raw)
-			if len(f) != 3 || (f[1] != "unless-field" && f[1] != "unless-equal-fields") {
+			if len(f) != 3 || (f[1] != "unless-field" && f[1] != "unless-equal-fields" && f[1] != "when-nonnil") {
 				continue
 			}
 			callee, field := f[0], f[2]
 			eqForm := f[1] == "unless-equal-fields"
+			nonnilForm := f[1] == "when-nonnil" // guarded <callee> when-nonnil <param>: called exactly on the `param != nil` side
 			name := fmt.Sprintf("%s/guarded:%s-unless-%s", c.Func, callee, field)
 			if eqForm {
 				name = fmt.Sprintf("%s/guarded:%s-unless-equal-%s", c.Func, callee, field)
+			}
+			if nonnilForm {
+				name = fmt.Sprintf("%s/guarded:%s-when-%s-nonnil", c.Func, callee, field)
 			}
 			fn := w.findFunc(c)
 			ex.Count++
@@ -336,8 +369,20 @@ func (w *World) guarded(id string, opts *RunOpts, ex *Extra) {
 			var safe []*ssa.BasicBlock // false successors of tests of the field
 			for _, b := range fn.Blocks {
 				ifi, ok := b.Instrs[len(b.Instrs)-1].(*ssa.If)
-				if ok && !eqForm && fieldNameOf(ifi.Cond) == field {
+				if ok && !eqForm && !nonnilForm && fieldNameOf(ifi.Cond) == field {
 					safe = append(safe, b.Succs[1])
+				}
+				if bo, isB := ifi0(ifi, ok); nonnilForm && isB {
+					isParam := func(v ssa.Value) bool { p, ok := v.(*ssa.Parameter); return ok && p.Name() == field }
+					isNil := func(v ssa.Value) bool { c, ok := v.(*ssa.Const); return ok && c.IsNil() }
+					if (isParam(bo.X) && isNil(bo.Y)) || (isParam(bo.Y) && isNil(bo.X)) {
+						switch bo.Op {
+						case token.NEQ:
+							safe = append(safe, b.Succs[0])
+						case token.EQL:
+							safe = append(safe, b.Succs[1])
+						}
+					}
 				}
 				// unless-equal-fields: the test compares the field of two values; the
 				// callee is reached only on the "differ" side
@@ -371,11 +416,18 @@ func (w *World) guarded(id string, opts *RunOpts, ex *Extra) {
 						if eqForm {
 							bad = fmt.Sprintf("the call of %s at line %d is not behind a comparison of the two %s fields", callee, p.Line, field)
 						}
+						if nonnilForm {
+							bad = fmt.Sprintf("the call of %s at line %d is not on the `%s != nil` side of a test of %s", callee, p.Line, field, field)
+						}
 					}
 				}
 			}
 			if os.Getenv("GOVC_DEBUG_GUARD") != "" {
 				fmt.Fprintln(os.Stderr, "guarded", name, "found", found, "safe", len(safe), "bad", bad)
+			}
+			if found == 0 && nonnilForm {
+				bad = fmt.Sprintf("%s does not call %s at all", c.Func, callee)
+				found = 1
 			}
 			switch {
 			case found == 0:
@@ -400,6 +452,7 @@ func (w *World) callOrder(id string, opts *RunOpts, ex *Extra) {
 	w.fieldFrom(id, opts, ex)
 	w.successPathCalls(id, opts, ex)
 	w.afterLoop(id, opts, ex)
+	w.alwaysCalls(id, opts, ex)
 	for _, c := range w.specs.Contracts {
 		if !hasTag(c.Props, id) {
 			continue
@@ -786,6 +839,78 @@ func (w *World) afterLoop(id string, opts *RunOpts, ex *Extra) {
 			case found == 0 || hdr == nil:
 				ex.Lines = append(ex.Lines, fmt.Sprintf("UNDECIDED: %s: no call of %s or no loop with %s found in %s any more", name, callee, event, c.Func))
 				ex.Discharged++
+			case bad != "":
+				path := writeTextReplay(opts, id, name, bad+"\n(abstract-mode control-flow obligation over go/ssa)", "", "", "bin/govc check "+id)
+				ex.Lines = append(ex.Lines, fmt.Sprintf("VIOLATION property=%s replay=%s no-failing-input-found", id, path))
+				ex.Lines = append(ex.Lines, "  failed obligation: "+name+": "+bad)
+				ex.Violations++
+			default:
+				ex.Discharged++
+			}
+		}
+	}
+}
+
+// alwaysCalls: `always-calls <callee>` — no path from the entry reaches a return
+// without a call of <callee> (a call that does not return, like os.Exit, ends the
+// path too). Used for the functions that make the tool fail loudly: the
+// diagnostic is printed and the process exits on every path.
+func (w *World) alwaysCalls(id string, opts *RunOpts, ex *Extra) {
+	for _, c := range w.specs.Contracts {
+		if !hasTag(c.Props, id) {
+			continue
+		}
+		for _, cl := range c.Clauses {
+			if cl.Kind != "always-calls" {
+				continue
+			}
+			callee := strings.TrimSpace(cl.Raw)
+			name := fmt.Sprintf("%s/always-calls:%s", c.Func, callee)
+			fn := w.findFunc(c)
+			ex.Count++
+			if fn == nil {
+				ex.Lines = append(ex.Lines, "UNDECIDED: "+c.Func+" not found; "+name+" is not checked")
+				ex.Discharged++
+				continue
+			}
+			has := func(b *ssa.BasicBlock) bool {
+				for _, ins := range b.Instrs {
+					if call, ok := ins.(*ssa.Call); ok && strings.Contains(calleeName(call), callee) {
+						return true
+					}
+				}
+				return false
+			}
+			total := 0
+			for _, b := range fn.Blocks {
+				if has(b) {
+					total++
+				}
+			}
+			// blocks reachable from the entry without passing a calling block
+			seen := map[*ssa.BasicBlock]bool{}
+			bad := ""
+			var walk func(b *ssa.BasicBlock)
+			walk = func(b *ssa.BasicBlock) {
+				if seen[b] || has(b) {
+					return
+				}
+				seen[b] = true
+				if ret, ok := b.Instrs[len(b.Instrs)-1].(*ssa.Return); ok && bad == "" {
+					p := w.prog.Fset.Position(ret.Pos())
+					bad = fmt.Sprintf("the return at line %d can be reached without a call of %s", p.Line, callee)
+				}
+				for _, sc := range b.Succs {
+					walk(sc)
+				}
+			}
+			walk(fn.Blocks[0])
+			switch {
+			case total == 0:
+				// the call no longer exists under this name anywhere in the function: with a
+				// single-purpose function (abort, logf) that IS the violation
+				bad = fmt.Sprintf("%s does not call %s at all", c.Func, callee)
+				fallthrough
 			case bad != "":
 				path := writeTextReplay(opts, id, name, bad+"\n(abstract-mode control-flow obligation over go/ssa)", "", "", "bin/govc check "+id)
 				ex.Lines = append(ex.Lines, fmt.Sprintf("VIOLATION property=%s replay=%s no-failing-input-found", id, path))
